@@ -125,7 +125,8 @@ class Slice:
         return False
 
 
-def forward_taint(fn, sources, sanitizer=None, source_nodes=None, max_iter=50, tuple_summary=None):
+def forward_taint(fn, sources, sanitizer=None, source_nodes=None, max_iter=50, tuple_summary=None,
+                  call_summary=None):
     """Flow-sensitive forward taint over the CFG.
 
     sources: set of names tainted at entry (parameters).
@@ -146,6 +147,10 @@ def forward_taint(fn, sources, sanitizer=None, source_nodes=None, max_iter=50, t
             return e.id in tset
         if isinstance(e, ast.Lambda):
             return False
+        if call_summary is not None and isinstance(e, ast.Call):
+            # a resolved private helper whose returned value does not depend on the tainted arguments is clean
+            if call_summary(e, lambda a: tainted_expr(a, tset)) is False:
+                return False
         return any(tainted_expr(c, tset) for c in ast.iter_child_nodes(e)
                    if isinstance(c, (ast.expr, ast.comprehension, ast.keyword)) or hasattr(c, 'value'))
 
